@@ -31,6 +31,13 @@ claim("C06", "translation_validation",
       "DESIGN.md §3 C06, §2.4 G8")
 
 
+claim("C08", "other",
+      "HIR decision-table extraction of the two 73-arm built-in dispatchers and Bif::from_str; sibling cross-check named vs positional wrapper (core callee sets, argument provenance) against the specification's parameter order",
+      "Static rule checking over the type-checked HIR: exhaustive dispatch without wildcard, name<->variant bijection, for each of the 73 built-ins the core functions reached by the named wrapper are a subset of those reached by the positional wrapper, optional arguments are nulled alike, and every named parameter lands on the core argument index its positional counterpart uses (specification parameter order as oracle). Decides the structural clauses only; the values computed by the ~40 core functions are not decided.",
+      "Trusts rustc's name resolution (HIR callee paths) and tables/bif_signatures.json (DMN 1.3 parameter names, with the repository-pinned deviation for 'list contains'). Not decided: results of core functions for any argument tuple (positions, Unicode, boundaries).",
+      "DESIGN.md §3 C08, §2.4 G6")
+
+
 def main():
     checks = []
     for pid in sorted(CLAIMED):
